@@ -831,7 +831,17 @@ def check_initialization_order(ctx: Ctx) -> None:
     ctx.floor("8.6-init-order", 2)
 
 
+def check_parallel_stage_inputs(ctx: Ctx) -> None:
+    """8.7: a parallel stage is exact only if every discipline of the stage sees the chain's data and nothing of what its
+    neighbours do to theirs (rule 13.9 of C13 on MDOParallelChain._get_input_data_copies)."""
+    from gv.props import c13
+    from gv.props.c12 import _Prefixed
+
+    c13.check_parallel_chain_inputs(_Prefixed(ctx, "8.7-stage-inputs/"))
+
+
 def run(ctx: Ctx) -> None:
+    check_parallel_stage_inputs(ctx)
     check_orientation(ctx)
     check_initialization_order(ctx)
     check_chains(ctx)
